@@ -26,6 +26,15 @@
 //       ID, empty runs only at the tail,
 //     * every non-empty run's transform is the transform of a distinct
 //       expected instance of that original.
+// Outside the statement's program class: values downstream of a
+// Simplify/SetTolerance (the library then recomputes its coplanar grouping and
+// may move vertices by the simplification tolerance) get only the run-table,
+// instance and 'lies on the transformed source surface' checks.
+// Witness keys: errors between 1x and 4x their bound are keyed
+// ':marginal(...)'; gross errors downstream of a Boolean of operands placed a
+// few epsilons apart carry ':few-epsilon-ancestry:'; witnesses downstream of a
+// Refine whose operand exported tangents (nothing here creates tangents) carry
+// the prefix 'phantom-tangents:' — see known_findings.d/C07.json.
 #include <algorithm>
 #include <array>
 #include <cfloat>
